@@ -39,6 +39,7 @@ var ghostIOComps = []ghostComp{
 	{"ghost.wlen", func(x *Exec) Sort { return SArr(SInt, x.idxSort()) }},
 	{"ghost.iofail", func(x *Exec) Sort { return SBool }},
 	{"ghost.fisize", func(x *Exec) Sort { return SArr(SInt, x.idxSort()) }},
+	{"ghost.wflushed", func(x *Exec) Sort { return SArr(SInt, x.idxSort()) }},
 }
 
 func (x *Exec) gcomp(st *State, name string) *Term {
@@ -333,8 +334,22 @@ func init() {
 		libModels[k] = write
 		libMods[k] = writeMod
 	}
+	// Flush: on success everything written so far has been handed to the underlying writer
+	// (ghost.wflushed = length of the flushed prefix of the stream)
 	libModels["bufio.Writer.Flush"] = func(x *Exec, st *State, e *ast.CallExpr, recv *Val) []Val {
-		return []Val{x.freshErr(st, "flush_err")}
+		c := x.c
+		x.nilCheck(st, recv.T, "Flush on nil writer")
+		fail := x.ioFail(st, "flush")
+		err := x.freshErr(st, "flush_err")
+		x.assume(st, c.Eq(c.Eq(err.T, c.Int(0)), c.Not(fail)))
+		wl := x.gsel(st, "ghost.wlen", recv.T)
+		fl := x.gsel(st, "ghost.wflushed", recv.T)
+		x.gset(st, "ghost.wflushed", recv.T, c.Ite(fail, fl, wl))
+		return []Val{err}
+	}
+	libMods["bufio.Writer.Flush"] = func(x *Exec, ms *modSet, e *ast.CallExpr) {
+		ms.addAt("ghost.wflushed", SArr(SInt, x.idxSort()), recvExpr(e), x.info)
+		ms.add("ghost.iofail", SBool)
 	}
 }
 
@@ -393,6 +408,10 @@ func registerGhostIO(e *Engine) {
 	g["streamLen"] = func(x *Exec, st *State, e *ast.CallExpr) []Val {
 		w := x.expr(st, e.Args[0])
 		return []Val{{Typ: intT, T: x.gsel(st, "ghost.wlen", w.T)}}
+	}
+	g["streamFlushed"] = func(x *Exec, st *State, e *ast.CallExpr) []Val {
+		w := x.expr(st, e.Args[0])
+		return []Val{{Typ: intT, T: x.gsel(st, "ghost.wflushed", w.T)}}
 	}
 	g["streamByte"] = func(x *Exec, st *State, e *ast.CallExpr) []Val {
 		w := x.expr(st, e.Args[0])
